@@ -56,12 +56,16 @@ def pristine():
     strict = dict(thr, monotonicity_threshold=1., amp_consistency_threshold=1.)
     dfnb = compute_features(sig, FS, FR, threshold_kwargs=copy.deepcopy(strict))      # a table without any burst
     bk8 = {'amp_threshes': (.5, 1.), 'min_n_cycles': 8}
+    dfs_off = dfs.iloc[1:].copy()                   # a slice: row labels 1..n-1
+    dfc_off = dfc.iloc[1:-1].copy()
+    fek_empty = {'filter_kwargs': {}, 'boundary': 2}
+    fek_other = {'filter_kwargs': {'print_transitions': False}}
     p, t = find_extrema(sig, FS, FR)
     r, d = find_zerox(sig, p, t)
     bufA = S.word_signal('aadaaazzaaaadaan')
     bufB = 2.0 * S.word_signal('bbnbbdabbbzbbeaa') + 1.0
     buf = np.zeros(len(bufA))
-    return dict(buf=buf, bufA=bufA, bufB=bufB, dfnb=dfnb, bk8=bk8, sig=sig, thr=thr, thra=thra, thram=thram, bk=bk, bkm=bkm, bkfull=bkfull, fek=fek, sigs2=sigs2, sigs3=sigs3,
+    return dict(buf=buf, bufA=bufA, bufB=bufB, dfnb=dfnb, bk8=bk8, dfs_off=dfs_off, dfc_off=dfc_off, fek_empty=fek_empty, fek_other=fek_other, sig=sig, thr=thr, thra=thra, thram=thram, bk=bk, bkm=bkm, bkfull=bkfull, fek=fek, sigs2=sigs2, sigs3=sigs3,
                 cfk=cfk, cfka=cfka, cfkl=cfkl, cfkl2=cfkl2, dfc=dfc, dft=dft, dfa=dfa, dfs=dfs, p=p, t=t, r=r, d=d)
 
 
@@ -80,7 +84,9 @@ def alphabet():
     from bycycle.cyclepoints import find_extrema, find_zerox, extrema_interpolated_phase
     from bycycle.group import compute_features_2d, compute_features_3d
     from bycycle.burst import recompute_edges
-    from bycycle.utils import limit_df, epoch_df, drop_samples_df
+    from bycycle.utils import limit_df, epoch_df, drop_samples_df, rename_extrema_df, split_samples_df, flatten_dfs
+    from bycycle.burst import detect_bursts_cycles, detect_bursts_amp
+    from bycycle.burst.utils import check_min_burst_cycles
     from bycycle.plts import (plot_burst_detect_summary, plot_burst_detect_param, plot_cyclepoints_df,
                               plot_cyclepoints_array, plot_feature_hist, plot_feature_categorical)
     A = {
@@ -101,6 +107,24 @@ def alphabet():
         'cf_default_t': lambda s: compute_features(s['sig'], FS, FR, center_extrema='trough'),
         'cf_amp_default': lambda s: compute_features(s['sig'], FS, FR, burst_method='amp'),
         'cf_amp_nothr_m8': lambda s: compute_features(s['sig'], FS, FR, burst_method='amp', burst_kwargs=s['bk8']),
+        # helpers documented to work in place, applied to COPIES: no module-level state may leak into later calls
+        'h_rename_nosamp': lambda s: rename_extrema_df('trough', drop_samples_df(s['dfc']).copy(), return_samples=False),
+        'h_rename': lambda s: rename_extrema_df('trough', s['dfc'].copy()),
+        'h_split': lambda s: split_samples_df(s['dft'].copy()),
+        'h_flatten': lambda s: flatten_dfs([s['dfc'].copy(), s['dft'].copy()], ['x', 'y']),
+        'h_detect_c': lambda s: detect_bursts_cycles(s['dfc'].copy(), **s['thr']),
+        'h_detect_a': lambda s: detect_bursts_amp(s['dfa'].copy(), **s['thra']),
+        'h_minrun': lambda s: check_min_burst_cycles(np.array([True, True, False, True]), min_n_cycles=2),
+        # tables whose row labels are not 0..n-1
+        'burstfeat_c_off': lambda s: compute_burst_features(s['dfs_off'], s['sig']),
+        'edges_off': lambda s: recompute_edges(s['dfc_off'], s['thr']),
+        'limit_off': lambda s: limit_df(s['dfc_off'], FS, start=.25, stop=1.5),
+        'epoch_off': lambda s: epoch_df(s['dfc_off'], len(s['sig']), 32),
+        'mono_off': lambda s: compute_monotonicity(s['dfs_off'], s['sig']),
+        # nested option dicts that set neither n_cycles nor n_seconds
+        'cf_fek_empty': lambda s: compute_features(s['sig'], FS, FR, threshold_kwargs=s['thr'], find_extrema_kwargs=s['fek_empty']),
+        'shape_fek_other': lambda s: compute_shape_features(s['sig'], FS, FR, find_extrema_kwargs=s['fek_other']),
+        'extrema_fk_empty': lambda s: find_extrema(s['sig'], FS, FR, filter_kwargs=s['fek_empty']['filter_kwargs']),
         # calls that FAIL (band-amplitude filter longer than the signal: 3 cycles at 1 Hz = 193 samples > 128)
         'cf_fail_t': lambda s: _expect_raise(lambda: compute_features(s['sig'], FS, (1, 3), center_extrema='trough', threshold_kwargs=s['thr'])),
         'cf_fail_amp': lambda s: _expect_raise(lambda: compute_features(s['sig'], FS, (1, 3), burst_method='amp', threshold_kwargs=s['thra'], burst_kwargs=s['bk'])),
@@ -146,12 +170,13 @@ def alphabet():
     return A
 
 
-NAMES = ['cf_fail_t', 'cf_fail_amp', 'shape_fail_t', 'amp_buf_A', 'amp_buf_B', 'cf_default', 'cf_default_t', 'cf_amp_default', 'cf_amp_nothr_m8', 'edges_noburst', 'cf_buf_A', 'cf_buf_B', 'shape_buf_B', 'cf_cycles', 'cf_trough', 'cf_amp', 'cf_amp_m', 'cf_amp_t', 'cf_nosamp', 'shape', 'shape_t', 'cyclepoints',
+NAMES = ['h_rename_nosamp', 'h_rename', 'h_split', 'h_flatten', 'h_detect_c', 'h_detect_a', 'h_minrun', 'burstfeat_c_off', 'edges_off',
+         'limit_off', 'epoch_off', 'mono_off', 'cf_fek_empty', 'shape_fek_other', 'extrema_fk_empty', 'cf_fail_t', 'cf_fail_amp', 'shape_fail_t', 'amp_buf_A', 'amp_buf_B', 'cf_default', 'cf_default_t', 'cf_amp_default', 'cf_amp_nothr_m8', 'edges_noburst', 'cf_buf_A', 'cf_buf_B', 'shape_buf_B', 'cf_cycles', 'cf_trough', 'cf_amp', 'cf_amp_m', 'cf_amp_t', 'cf_nosamp', 'shape', 'shape_t', 'cyclepoints',
          'burstfeat_c', 'burstfeat_a', 'ampfrac', 'ampcons', 'percons', 'mono', 'bfrac', 'extrema', 'zerox', 'phase',
          '2d_dict', '2d_amp', '2d_list', '2d_none', '2d_none_list', '3d', '3d_1', '3d01', 'edges', 'edges_t', 'limit',
          'limit_t', 'epoch', 'epoch_t', 'drop', 'plt_summary', 'plt_summary_t', 'plt_summary_a', 'plt_param', 'plt_cpdf',
          'plt_cparr', 'plt_hist', 'plt_cat']
-CORE = ['cf_fail_t', 'cf_default', 'cf_amp_nothr_m8', 'edges_noburst', 'cf_buf_A', 'cf_buf_B', 'cf_cycles', 'cf_amp_m', 'cf_amp_t', 'cf_trough', 'burstfeat_a', '2d_amp', '2d_none_list', '3d01', 'edges', 'limit_t',
+CORE = ['h_rename_nosamp', 'burstfeat_c_off', 'cf_fek_empty', 'cf_fail_t', 'cf_default', 'cf_amp_nothr_m8', 'edges_noburst', 'cf_buf_A', 'cf_buf_B', 'cf_cycles', 'cf_amp_m', 'cf_amp_t', 'cf_trough', 'burstfeat_a', '2d_amp', '2d_none_list', '3d01', 'edges', 'limit_t',
         'epoch', 'plt_summary']
 REF = {}          # call name -> fingerprint hash of its fresh-state result (filled before the workers are forked)
 
